@@ -7,13 +7,12 @@ difference.  All field elements are raw Montgomery limbs on the wire.
 import JediVerif.Driver.Parse
 import JediVerif.Spec.Pairing
 import JediVerif.Spec.Rand
+import JediVerif.Impl.ConstsFq
 
 namespace Jedi.Driver
 
 /-- Montgomery radix for Fq (2^384) and Fr (2^256), as field elements. -/
-def fqR : Fq := Fin.ofNat q (2 ^ 384)
 def frR : Fr := Fin.ofNat r (2 ^ 256)
-def fqRinv : Fq := fqR⁻¹
 def frRinv : Fr := frR⁻¹
 
 /-- interpret raw stored limbs as the field element they represent; raw must be canonical. -/
